@@ -13,7 +13,7 @@ import (
 // argument position filled from a typed alphabet, delivered as literals and
 // through document fields.
 
-var c02Quick = []string{"null", "true", `""`, `"a"`, `"aba"`, `"aé€"`, "-1", "0", "2", "4", "1.5", "9223372036854775807", "[]", "[2,1]", `["b","a"]`, `[["k",1]]`, `[[null,1]]`, `{"a":1}`}
+var c02Quick = []string{"null", "true", `""`, `"a"`, `"aba"`, `"aé€"`, "-1", "0", "2", "2.0", "4", "1.5", "9223372036854775807", "[]", "[2,1]", `["b","a"]`, `[["k",1]]`, `[[null,1]]`, `{"a":1}`}
 
 var c02Full = []string{
 	"null", "true", `""`, `"a"`, `"ab"`, `"aba"`, `"a,b"`, `" a "`, `"é"`, `"aé€"`,
@@ -25,7 +25,7 @@ var c02Full = []string{
 // arrays used with expression-reference functions
 var c02ExpArrays = []string{c02Long(14, 3), c02Long(13, 2), "[]", `[{"a":2},{"a":1},{"a":2}]`, `[{"a":"y"},{"a":"x"}]`, `[{"a":1},{"a":"x"}]`, `[{"a":null},{"a":1}]`, "[3,1,2]", `["b","a","b"]`,
 	`[[2,"p"],[1,"q"],[2,"r"]]`, `{"a":1}`, `"a"`, "null", `[{"a":true}]`, `[{"a":[1]},{"a":[1,2]}]`}
-var c02ExpRefs = []string{"&a", "&@", "&length(@)", "&$v", "&missing", "&[a][0]", "&a.b", "a", "@", "`1`", "&`1`", "&'k'", "&to_string(a)", "&[0]", "&@[0]"}
+var c02ExpRefs = []string{"&a", "&@", "&length(@)", "&$v", "&missing", "&[a][0]", "&a.b", "a", "@", "`1`", "&`1`", "&'k'", "&to_string(a)", "&[0]", "&@[0]", "&$s", "&(a || $s)", "&[$s, a][1]"}
 
 type c02Call struct {
 	Expr  string
@@ -83,7 +83,7 @@ func c02Calls(name string, thorough bool, emit func(c02Call)) {
 					args = []string{"`" + arr + "`", e}
 				}
 				call := name + "(" + strings.Join(args, ", ") + ")"
-				emit(c02Call{Expr: "let $v = `1` in " + call, Doc: "null", Shape: name + "/expref/" + c02TypeClass(arr) + "," + strings.TrimLeft(e, "&")})
+				emit(c02Call{Expr: "let $v = `1`, $s = 'k' in " + call, Doc: "null", Shape: name + "/expref/" + c02TypeClass(arr) + "," + strings.TrimLeft(e, "&")})
 				// through the document
 				dargs := append([]string{}, args...)
 				if sig.ExprAt(0) {
@@ -91,7 +91,7 @@ func c02Calls(name string, thorough bool, emit func(c02Call)) {
 				} else {
 					dargs[0] = "x"
 				}
-				emit(c02Call{Expr: "let $v = `1` in " + name + "(" + strings.Join(dargs, ", ") + ")", Doc: `{"x":` + arr + `}`, Shape: name + "/expref-doc/" + c02TypeClass(arr) + "," + strings.TrimLeft(e, "&")})
+				emit(c02Call{Expr: "let $v = `1`, $s = 'k' in " + name + "(" + strings.Join(dargs, ", ") + ")", Doc: `{"x":` + arr + `}`, Shape: name + "/expref-doc/" + c02TypeClass(arr) + "," + strings.TrimLeft(e, "&")})
 			}
 		}
 		for n := 0; n <= 3; n++ {
